@@ -53,6 +53,16 @@ claim("C10", "path-sensitive typestate from each entry point through the recorde
       "Decides for all 15 entry points and every path that hooks, the wall clock, lazy generators and Msgf are evaluated only under the level gate of the logger serving the tag, that each set hook is called exactly once with the caller's context and an unset hook never, that the lazy generator runs exactly once on emitting paths, that the event is populated from those results, that no hook is reachable from the worker goroutine and that both layouts put context fields first.",
       NOTE_COMMON, "DESIGN.md §4 C10")
 
+claim("C04", "ESP-style typestate simulation of each submitted item (enqueued xor counted, exactly once) through the inlined select/overflow code under every policy constant, and of each received item through the worker",
+      "Decides per-item exactly-once accounting on every path of Append/Write under each of the three policies (loops handled by tracking the constant-valued exit flag), one-for-one counting of producer-side removals, no counter activity under Block or on the disabled branch, exactly one fan-out per received item in the worker, closed set of item types, atomic +1/load-only counter. The count identity over real schedules additionally needs Go channel semantics, which are trusted.",
+      NOTE_COMMON, "DESIGN.md §4 C04")
+claim("C05", "typestate/must-call analysis of Stop (signal through the queue then wait), worker exit discipline, dominance order in Destroy, owned-lifecycle pairing, close-on-all-paths and file-handle ownership transfer in the rotation step",
+      "Decides the structural conditions for 'everything accepted before Stop is delivered when Stop returns and no descriptor is left': marker/close behind pending items then wait on every path; worker exits only on marker/close and signals completion; loggers stopped before appenders; started things are registered; owners start/stop the Lifecycle children they create; every file-holding field closed in Stop; at most two descriptors across rotations. Bounded time and races with concurrent log calls are not decided.",
+      NOTE_COMMON, "DESIGN.md §4 C05")
+claim("C06", "who-may-receive / who-may-spawn rules over the buffer channel plus per-policy typestate of the overflow handler (blocking-ness, removals, end state)",
+      "Decides single FIFO queue + single consumer (the structural basis of per-producer order) and that each policy constant's buffer-full path does what its name says: Discard drops the arriving item without blocking, DiscardOldest removes from the head and keeps the arriving item without blocking, Block enqueues with a blocking send and drops nothing; parser names map to the same-named constants. Scheduling is not decided; channel FIFO is trusted.",
+      NOTE_COMMON, "DESIGN.md §4 C06")
+
 PENDING_REASON = "check not built yet in this commit (static rule planned in DESIGN.md section 4); no claim is made until the rule exists and has been validated both ways"
 
 def main():
